@@ -7,6 +7,8 @@ CONSTANTS Principals = {"A", "B"}
           BoomCodes = {}
           Strategies = {"S"}
           MaxReq = 8
+          TempNames = {}
+          GenPNames = {}
           FilterOnOwner = TRUE
           FixedF8 = TRUE
 INVARIANTS StrictIsolation
